@@ -586,7 +586,11 @@ func runFed(cfg *runCfg, prop string) error {
 				for _, k := range sortedKeysInt(stepsAt) {
 					sa = append(sa, fmt.Sprintf("(%s, %d)", c.S(k), stepsAt[k]))
 				}
-				oracle = fmt.Sprintf("c13_holds (%s) %d [%s] [%s] obs%d && Nat.eqb %d 0", single, nroot, strings.Join(sp, "; "), strings.Join(sa, "; "), id, ndup)
+				core := fmt.Sprintf("c13_holds (%s) %d [%s] [%s] obs%d", single, nroot, strings.Join(sp, "; "), strings.Join(sa, "; "), id)
+				oracle = fmt.Sprintf("%s && Nat.eqb %d 0", core, ndup)
+				// the findings about occurrences planned one by one (guards 7 and 8) are about duplicate
+				// steps only: they excuse nothing when the counts of calls and points are wrong
+				guards = fmt.Sprintf("(if %s then %s else filter (fun g => negb (Nat.eqb g 7 || Nat.eqb g 8)) (%s))", core, guards, guards)
 				if ndup > 0 {
 					doc.Dist["plan:duplicate-steps"]++
 				}
